@@ -108,3 +108,19 @@ pub fn info_request<C: crate::transform_stream::TransformController + 'static>(
         Ok(f(c, info.attr_buffer.len(), info.self_closing))
     }))
 }
+
+thread_local! {
+    static PARSED_BYTES: std::cell::Cell<u64> = const { std::cell::Cell::new(0) };
+}
+
+/// Work counter: total length of the chunks handed to `Parser::parse` on this thread.
+#[inline]
+pub(crate) fn add_parsed(n: usize) {
+    PARSED_BYTES.with(|c| c.set(c.get().wrapping_add(n as u64)));
+}
+
+/// Reads the work counter of this thread.
+#[must_use]
+pub fn parsed_bytes() -> u64 {
+    PARSED_BYTES.with(std::cell::Cell::get)
+}
